@@ -56,11 +56,19 @@ def run(ctx, info):
                 seed = r.choice([None, 0, 42, r.randint(0, 10**6)])
                 t = search.cont_task(obj=r.choice(["sphere", "shifted"]), minmax=r.choice(["min", "max"]), seed=seed, dim=3, delay=0.0006)
                 jobs.append({"opt": nm, "cfg": {"max_cycles": 2, "fitness_error": None, "population_size": 12}, "task": t, "mode": mode, "workers": wk, "record": True})
+    for nm in pooled_greedy_users[:1] + pick[-2:]:          # more workers than agents, both pooled modes (deterministic part of the plan)
+        for mode in ("process", "thread"):
+            jobs.append({"opt": nm, "cfg": {"max_cycles": 2, "fitness_error": None, "population_size": 12}, "task": search.cont_task(obj="sphere", seed=r.choice([None, 42]), dim=3, delay=0.0004),
+                         "mode": mode, "workers": 16, "record": True})
     obs = search.run_jobs(jobs, procs=8)
     n_ok = 0
     for o in obs:
         j = o["job"]
         if not o["ok"]:
+            if o["error"]["type"] != "ValidationError" and not o["error"]["where"].endswith(("_optimization.py:optimization_step", "_optimization.py:evolve")):
+                # the pool plumbing itself failed (not a numeric kernel: those are C06's census): every pooled evaluation must contribute one agent
+                ctx.violation(f"pooled:{o['error']['type']}:{o['error']['where']}", f"{j['opt']} ({j['mode']}, {j['workers']} workers, population {j['cfg']['population_size']}): "
+                              f"{o['error']['type']} in {o['error']['where']}: {o['error']['msg'][:100]}", {"kind": "job", "job": j})
             continue
         n_ok += 1
         # guarantees of serial mode
